@@ -2,9 +2,11 @@ package main
 
 import (
 	"bytes"
+	"encoding/hex"
 	"fmt"
 	"net"
 	"sort"
+	"strings"
 	"sync"
 	"testing"
 	"testing/synctest"
@@ -213,6 +215,7 @@ func genC14(r *Run) {
 			closeAt = r.Rng.Intn(cnt + 1)
 		}
 		expectInv := 0
+		var expPeers []string // sender of each datagram that must reach the handler, in order
 		for k := 0; k < cnt; k++ {
 			if k == closeAt {
 				reads = append(reads, []byte{1})
@@ -259,6 +262,16 @@ func genC14(r *Run) {
 				}
 				if !(pk == 4 && !v6) {
 					expectInv++
+					sender, _ := peerOf(pk, port).(*net.UDPAddr)
+					want := ""
+					if sender != nil {
+						ip := sender.IP
+						if !v6 && (ip == nil || ip.To4().Equal(net.IPv4zero)) {
+							ip = net.IPv4bcast // a sender without address is answered by broadcast, on its own port
+						}
+						want = fmt.Sprintf("%s/%d", hx(ip), port)
+					}
+					expPeers = append(expPeers, want)
 				}
 			}
 			reads = append(reads, append(hdr, payload...))
@@ -278,6 +291,21 @@ func genC14(r *Run) {
 		if (closeAt < 0 || closeAt >= cnt) && outs[len(outs)-1][0] != 0 {
 			r.Fail("c14-serve-stopped", trunc(Case{entry, reads}.Line(), 800), "Serve returned although reading never failed")
 		}
+		// every invocation sees the sender of its own datagram, whatever arrived afterwards
+		if got == expectInv {
+			for k := 0; k+2 < len(outs); k += 3 {
+				have := ""
+				if len(outs[k+1]) == 2 {
+					ip := net.IP(outs[k])
+					have = fmt.Sprintf("%s/%d", hx(ip), int(outs[k+1][0])<<8|int(outs[k+1][1]))
+				}
+				if normPeer(have) != normPeer(expPeers[k/3]) {
+					r.Fail("c14-peer-of-own-datagram", trunc(Case{entry, reads}.Line(), 800),
+						fmt.Sprintf("invocation %d saw peer %s, its datagram came from %s", k/3, have, expPeers[k/3]))
+					break
+				}
+			}
+		}
 		// peer rule for DHCPv4
 		if !v6 {
 			for k := 0; k+2 < len(outs); k += 3 {
@@ -289,4 +317,18 @@ func genC14(r *Run) {
 		}
 	}
 	r.Extra["oracle_evaluations"] = evals
+}
+
+// normPeer compares IPv4 addresses in either 4- or 16-octet form
+func normPeer(p string) string {
+	i := strings.IndexByte(p, '/')
+	if i < 0 {
+		return p
+	}
+	if b, err := hex.DecodeString(p[:i]); err == nil {
+		if v4 := net.IP(b).To4(); v4 != nil {
+			return hx(v4) + p[i:]
+		}
+	}
+	return p
 }
